@@ -15,8 +15,8 @@ import z3
 
 from vf import pyvc
 from vf.core import Ob, scenario, simple_ob, sym_run, z3_valid, PROVED
-from vf.jasmrt import J, ensure
-from vf.pyvc import Name, SymBool, SymSeq, ctx
+from vf.jasmrt import J, ensure, find_callable, patch_all, restore_all
+from vf.pyvc import Name, SymBool, SymSeq, Unsupported, ctx
 
 
 def ident_of(x) -> str:
@@ -34,6 +34,29 @@ def ident_of(x) -> str:
 def addr_stub(t):
     from vf import sstr
     return sstr.var("addr(" + ident_of(t) + ")", "[^\\n]*")
+
+class HitList(list):
+    """the observer's list of hits during / after the loop over a symbolic sequence of matches: concrete elements and Splice
+    placeholders; its truth value and length are symbolic when they depend on the length of the sequence"""
+
+    def _sym_part(self):
+        t = z3.IntVal(0)
+        for e in self:
+            if isinstance(e, Splice):
+                t = t + (z3.Int("len!" + e.seq) if e.upto == "len" else z3.Int(e.upto))
+        return t
+
+    def __bool__(self):
+        if any(not isinstance(e, Splice) for e in self):
+            return True
+        if not list.__len__(self):
+            return False
+        return ctx().branch(self._sym_part() > 0)
+
+    def sym_len(self):
+        conc = sum(1 for e in self if not isinstance(e, Splice))
+        return pyvc.SymInt(z3.simplify(self._sym_part() + conc), "len(addr_list)")
+
 
 CC = "jasm.consumer.CompleteConsumer"
 MO = "jasm.matched_observers.MatchedObserver"
@@ -74,6 +97,21 @@ class MatchStub:
         # the matched text: any text, possibly EMPTY (a rule that can match zero instructions)
         from vf import sstr
         return sstr.var("text(" + self.ident + ")", "[^\\n]*")
+
+    # positions of the match: unknown integers with start <= end
+    def start(self, n=0):
+        return self.span(n)[0]
+
+    def end(self, n=0):
+        return self.span(n)[1]
+
+    def span(self, n=0):
+        if n != 0:
+            raise pyvc.Unsupported("span(n) of a match stub")
+        a, b = pyvc.sym_int("start(" + self.ident + ")"), pyvc.sym_int("end(" + self.ident + ")")
+        pyvc.assume(a.t >= 0)
+        pyvc.assume(b.t >= a.t)
+        return (a, b)
 
     def render(self, c):
         return f"match({self.ident})"
@@ -149,6 +187,14 @@ class LogStub:
 
     warning = error
 
+    def isEnabledFor(self, level):
+        return False
+
+    def __getattr__(self, name):          # critical / exception / log / ...: not part of the output contract
+        if name.startswith("__"):
+            raise AttributeError(name)
+        return lambda *a, **k: None
+
 
 class MatchLoop:
     """loop contract of do_match_all_findings"""
@@ -158,7 +204,7 @@ class MatchLoop:
         self.prelog: List[Any] = []
 
     def establish(self, seq: SymSeq, at: str):
-        self.mo.addr_list[:] = list(self.pre) + [Splice(seq.root, at)]
+        self.mo.addr_list = HitList(list(self.pre) + [Splice(seq.root, at)])
         if at == "len":
             self.mo._matched = SymBool(z3.Int("len!" + seq.root) > 0)
         else:
@@ -192,8 +238,8 @@ def _mk_consumer(mode_all: bool, only_addr: bool, relog: List[Any], loglist: Lis
     mo = J.mobs.MatchedObserver()
     mode = J.gd.MatchingSearchMode.all_finds if mode_all else J.gd.MatchingSearchMode.first_find
     c = J.consumer.CompleteConsumer(regex_rule=Name("rule"), matched_observer=mo, matching_mode=mode, return_only_address=only_addr)
-    # the address observer is a function under its own contract (get_first_addr below)
-    c.get_first_addr_from_regex_result = addr_stub
+    # the address extraction is a function under its own contract (driver:first_addr), wherever it is defined
+    patch_all("get_first_addr_from_regex_result", addr_stub, ["consumer"])
     return c, mo
 
 
@@ -325,20 +371,30 @@ def first_addr():
     ensure()
     obs: List[Ob] = []
 
+    from vf import sstr as S_
+
     for nrec in (1, 2, 3):
         def fn(nrec=nrec):
-            a = Name("a")
-            # a matched text starts at a record start and covers whole records: address digits (no ':'), "::", the record body, "|",
-            # and possibly further records -- each with its own "::"
-            text = str.__str__(a) + "::" + str.__str__(Name("body1")) + ",|"
+            # a matched text starts at a record start and covers whole records: address digits of ANY length, "::", the record body
+            # (no '|', no "::"), ",|", and possibly further records -- each with its own "::".  A structured string: its length is
+            # unknown, so positions counted in characters mean nothing
+            a = S_.var("a", "[0-9a-f]+")
+            text = a + S_.lit("::") + S_.var("body1", "[^|:][^|]*", avoid="::") + S_.lit(",|")
             for k in range(2, nrec + 1):
-                text += str.__str__(Name(f"a{k}")) + "::" + str.__str__(Name(f"body{k}")) + ",|"
-            return [J.consumer.CompleteConsumer.get_first_addr_from_regex_result(text), str.__str__(a)]
-        run = sym_run(fn)
+                text = text + S_.var(f"a{k}", "[0-9a-f]+") + S_.lit("::") + S_.var(f"body{k}", "[^|:][^|]*", avoid="::") + S_.lit(",|")
+            r = find_callable("get_first_addr_from_regex_result", ["consumer"])(text)
+            return [getattr(r, "payload", r), a.payload]
+        try:
+            run = sym_run(fn)
+        except Unsupported as e:
+            obs.append(simple_ob(f"get_first_addr_from_regex_result:records={nrec}:RUN", CC + ".get_first_addr_from_regex_result", "RUN",
+                                 "symbolic execution completes", None, ["C07", "C12"], detail=f"unsupported: {e}"))
+            continue
         for i, p in enumerate(run.paths):
             ok = p.kind == "ret" and p.value[0] == p.value[1]
             obs.append(simple_ob(f"get_first_addr_from_regex_result:records={nrec}:p{i}:POST", CC + ".get_first_addr_from_regex_result", "POST",
-                                 f"for a matched text of {nrec} record(s) a '::' body ',|' ... the result is the address a of the FIRST record",
+                                 f"for a matched text of {nrec} record(s) a '::' body ',|' ... the result is the address a of the FIRST record, "
+                                 "whatever its number of digits",
                                  ok, ["C07", "C12"], detail=repr(p.value), witness=repr(p.value)))
     return obs
 
@@ -429,9 +485,8 @@ def modes():
                     J.mobs.logger = LogStub(loglist)
                     J.consumer.logger = LogStub([])
                     orig_pb = vars(J.match.ProducerBuilder)["build"]
-                    orig_fa = vars(J.consumer.CompleteConsumer)["get_first_addr_from_regex_result"]
                     J.match.ProducerBuilder.build = staticmethod(lambda file_type, assembly_style=None: (calls.append(("producer", file_type, assembly_style)), ProducerStub(calls))[1])
-                    J.consumer.CompleteConsumer.get_first_addr_from_regex_result = staticmethod(addr_stub)
+                    patch_all("get_first_addr_from_regex_result", addr_stub, ["consumer"])
                     try:
                         mop = J.match.MasterOfPuppets.__new__(J.match.MasterOfPuppets)
                         mop.match_config = J.gd.MatchConfig(
@@ -457,7 +512,7 @@ def modes():
                         return [r, holder["mo"], list(relog), list(calls)]
                     finally:
                         J.match.ProducerBuilder.build = orig_pb
-                        J.consumer.CompleteConsumer.get_first_addr_from_regex_result = orig_fa
+                        restore_all()
                 try:
                     run = sym_run(fn)
                 finally:
@@ -496,10 +551,11 @@ def modes():
 
 # --------------------------------------------------------------------------- what is handed back to the caller
 class _ObserverStub:
-    """a matched-observer after an arbitrary scan: ANY list of hits (symbolic sequence), any flag, any stream text"""
+    """a matched-observer after an arbitrary scan: ANY list of hits (symbolic sequence), any stream text; the flag is the
+    observer's invariant (matched <=> at least one hit, driver:match_all / match_first establish it)"""
     def __init__(self):
         self.addr_list = SymSeq("hits", Name("hit_k"), 0)
-        self.matched = Name("matched-flag")
+        self.matched = SymBool(z3.Int("len!hits") > 0)
         self.stringified_instructions = Name("stream")
 
     def finalize(self):
